@@ -34,11 +34,74 @@ inductive Ev
   | unknown      -- the translator met a construct it does not understand (fail closed)
 deriving DecidableEq, Repr
 
+/-- what a framework needs to know about its handler chain (C19 round 3: "return without calling next" only
+means "handler not run" in some frameworks) -/
+structure Chain where
+  /-- returning from the middleware without invoking the next handler ends the chain.  True for the wrapping
+  frameworks (the middleware alone holds `next`); false for gin / hertz server (the `Next` loop of the caller goes
+  on unless aborted), iris (under forced execution rules only `StopExecution` ends the chain) and gear
+  (middlewares run one after the other until one fails or ends the context). -/
+  returnStops : Bool
+  /-- context methods that stop the chain and do nothing else (`Abort`, `StopExecution`) -/
+  stopOnly : List String
+  /-- context methods that stop the chain *and* produce the rejection (`AbortWithStatus`, `End`, …) -/
+  stopRespond : List String
+
+structure Framework extends Chain where
+  name : String                 -- adapter package directory under pkg/adapters
+  /-- how this framework's adapters may invoke the next handler: `param` (call through a function parameter),
+  `embedded` (method of the embedded wrapped client), or the name of the context method (`Next`) -/
+  nextCalls : List String
+
+def wrappingChain : Chain := ⟨true, [], []⟩
+
+/-- **the per-framework table** (checked against the module sources in the Go module cache and, for the driven
+adapters, by the dynamic harnesses: gin `Context.Next` is a loop that a returning handler falls back into, only
+`Abort*` moves the index to the end; hertz `RequestContext.Next` is the same loop; iris `ExecutionRules{Force}`
+calls `ctx.Next()` after every handler that neither called it nor stopped the context; gear `middlewares.run`
+continues until a middleware returns an error or ends the context; goframe's `Middleware.Next` runs one
+middleware and leaves its loop; fiber only runs `route.Handlers[0]`, the rest via `c.Next()`) -/
+def frameworks : List Framework :=
+  [ { name := "echo", nextCalls := ["param"], toChain := wrappingChain },
+    { name := "fiber", nextCalls := ["Next"], toChain := wrappingChain },
+    { name := "gear", nextCalls := [], returnStops := false, stopOnly := [],
+      stopRespond := ["End", "Error", "ErrorStatus", "Redirect"] },
+    { name := "gin", nextCalls := ["Next"], returnStops := false, stopOnly := ["Abort"],
+      stopRespond := ["AbortWithStatus", "AbortWithStatusJSON", "AbortWithError"] },
+    { name := "go-zero", nextCalls := ["param"], toChain := wrappingChain },
+    { name := "goframe", nextCalls := ["Next"], toChain := wrappingChain },
+    { name := "grpc", nextCalls := ["param"], toChain := wrappingChain },
+    { name := "hertz", nextCalls := ["param", "Next"], returnStops := false, stopOnly := ["Abort"],
+      stopRespond := ["AbortWithStatus", "AbortWithMsg", "AbortWithStatusJSON", "AbortWithError"] },
+    { name := "iris", nextCalls := ["Next"], returnStops := false, stopOnly := ["StopExecution"],
+      stopRespond := ["StopWithStatus", "StopWithText", "StopWithError", "StopWithPlainError", "StopWithJSON",
+                      "StopWithProblem"] },
+    { name := "kitex", nextCalls := ["param"], toChain := wrappingChain },
+    { name := "kratos", nextCalls := ["param"], toChain := wrappingChain },
+    { name := "micro", nextCalls := ["param", "embedded"], toChain := wrappingChain } ]
+
+/-- an adapter package that is not in the table: nothing is known to stop its chain and no way of calling the
+next handler is accepted (fail closed: a new adapter needs a table row) -/
+def unknownFramework (n : String) : Framework :=
+  { name := n, nextCalls := [], returnStops := false, stopOnly := [], stopRespond := [] }
+
+def frameworkOf (n : String) : Framework := (frameworks.find? (·.name == n)).getD (unknownFramework n)
+
+/-- does the call `via` stop the chain?  `option` = the configured block fallback / the adapter's default
+fallback option: stopping the chain is delegated to it. -/
+def Chain.isStop (c : Chain) (via : String) : Bool :=
+  via == "option" || c.stopOnly.contains via || c.stopRespond.contains via
+
+/-- does the call `via` count as producing the rejection?  everything but a pure stop call -/
+def Chain.isResponse (c : Chain) (via : String) : Bool := !c.stopOnly.contains via
+
 /-- adapter body; `ifBlocked` carries the then-branch -/
 inductive Stmt
   | entry                              -- e, b := sentinel.Entry(...)
   | ifBlocked (thenB : List Stmt)      -- if b != nil { thenB }
-  | fallback                           -- options.blockFallback(...) / default rejection
+  | reject (alts : List (List String))
+      -- the rejection part of the block branch: one list of callee names per alternative path through the
+      -- option tests (`[["option"], ["StatusCode", "StopExecution"]]`); `return` = the block error is returned
   | ret                                -- return
   | deferExit                          -- defer e.Exit()
   | exitNow                            -- e.Exit()
@@ -49,30 +112,41 @@ inductive Stmt
   | unknown                            -- anything the translator cannot classify
 
 structure Prog where
-  key  : String          -- "<adapter file>:<function>[:<arm>]"
-  body : List Stmt
+  key     : String          -- "<adapter file>:<function>[:<arm>]"
+  fw      : String          -- adapter package directory (first component of the key)
+  nextVia : List String     -- the ways the body invokes the next handler (`param`, `embedded`, `Next`)
+  body    : List Stmt
 
 structure St where
-  trace     : List Ev := []
-  deferred  : Nat := 0            -- pending `defer e.Exit()` calls
-  entryNil  : Bool := false       -- e == nil (the request was blocked)
-  stopped   : Bool := false       -- returned or panicking
+  trace        : List Ev := []
+  deferred     : Nat := 0            -- pending `defer e.Exit()` calls
+  entryNil     : Bool := false       -- e == nil (the request was blocked)
+  stopped      : Bool := false       -- returned or panicking
+  panicking    : Bool := false
+  chainStopped : Bool := false       -- a stop call (or the delegated fallback) ended the handler chain
+  advanced     : Bool := false       -- the body itself invoked the next handler
 deriving Repr
 
+/-- every alternative of the rejection contains a call that … -/
+def allAlts (alts : List (List String)) (f : String → Bool) : Bool :=
+  !alts.isEmpty && alts.all fun a => a.any f
+
 mutual
-def exec (sc : Scenario) (s : St) : Stmt → St
+def exec (ch : Chain) (sc : Scenario) (s : St) : Stmt → St
   | .entry => { s with trace := s.trace ++ [.entryAsked], entryNil := sc.blocked }
-  | .ifBlocked th => if sc.blocked then execList sc s th else s
-  | .fallback => { s with trace := s.trace ++ [.fallback] }
+  | .ifBlocked th => if sc.blocked then execList ch sc s th else s
+  | .reject alts =>
+      { s with trace := if allAlts alts ch.isResponse then s.trace ++ [.fallback] else s.trace,
+               chainStopped := s.chainStopped || allAlts alts ch.isStop }
   | .ret => { s with stopped := true }
   | .deferExit => { s with deferred := s.deferred + 1 }
   | .exitNow =>
-      if s.entryNil then { s with trace := s.trace ++ [.nilDeref], stopped := true }
+      if s.entryNil then { s with trace := s.trace ++ [.nilDeref], stopped := true, panicking := true }
       else { s with trace := s.trace ++ [.exit] }
   | .useEntry =>
-      if s.entryNil then { s with trace := s.trace ++ [.nilDeref], stopped := true } else s
+      if s.entryNil then { s with trace := s.trace ++ [.nilDeref], stopped := true, panicking := true } else s
   | .callNext eb tr =>
-      let s1 := { s with trace := s.trace ++ [.handlerRun] }
+      let s1 := { s with trace := s.trace ++ [.handlerRun], advanced := true }
       match sc.handler with
       | .ok => s1
       | .err =>
@@ -81,11 +155,11 @@ def exec (sc : Scenario) (s : St) : Stmt → St
             if tr && !s.entryNil then { s1 with trace := s1.trace ++ [.errBack, .traced] }
             else { s1 with trace := s1.trace ++ [.errBack] }
           else s1
-      | .panic => { s1 with stopped := true }
+      | .panic => { s1 with stopped := true, panicking := true }
   | .unknown => { s with trace := s.trace ++ [.unknown] }
-def execList (sc : Scenario) (s : St) : List Stmt → St
+def execList (ch : Chain) (sc : Scenario) (s : St) : List Stmt → St
   | [] => s
-  | x :: r => if s.stopped then s else execList sc (exec sc s x) r
+  | x :: r => if s.stopped then s else execList ch sc (exec ch sc s x) r
 end
 
 /-- the deferred exits run on return and on panic alike (a nil entry panics in each of them) -/
@@ -93,9 +167,14 @@ def unwind (nil : Bool) : Nat → List Ev → List Ev
   | 0, tr => tr
   | k + 1, tr => unwind nil k (tr ++ [if nil then .nilDeref else .exit])
 
-def runProg (sc : Scenario) (p : List Stmt) : List Ev :=
-  let s := execList sc {} p
-  unwind s.entryNil s.deferred s.trace
+/-- after the body returned normally: does the framework itself go on to the next handler? -/
+def frameworkAdvances (ch : Chain) (s : St) : Bool :=
+  !ch.returnStops && !s.chainStopped && !s.advanced && !s.panicking && !(s.entryNil && s.deferred != 0)
+
+def runProg (ch : Chain) (sc : Scenario) (p : List Stmt) : List Ev :=
+  let s := execList ch sc {} p
+  let tr := unwind s.entryNil s.deferred s.trace
+  if frameworkAdvances ch s then tr ++ [.handlerRun] else tr
 
 def count (e : Ev) (l : List Ev) : Nat := l.count e
 
@@ -120,7 +199,20 @@ def conformsTrace (sc : Scenario) (tr : List Ev) : Bool :=
      count .traced tr = count .errBack tr &&
      tr.getLast? = some .exit)
 
-def conforms (p : Prog) (sc : Scenario) : Bool := conformsTrace sc (runProg sc p.body)
+/-- a body that holds the next handler itself (parameter / embedded client) is the only one who can run it -/
+def Prog.wraps (p : Prog) : Bool := p.nextVia.any fun v => v == "param" || v == "embedded"
+
+/-- the chain rules that apply to this entry point -/
+def Prog.chain (p : Prog) : Chain :=
+  let f := frameworkOf p.fw
+  { f.toChain with returnStops := p.wraps || f.returnStops }
+
+/-- the handler is only invoked in ways the framework's table row lists -/
+def Prog.nextOk (p : Prog) : Bool := p.nextVia.all (frameworkOf p.fw).nextCalls.contains
+
+def Prog.run (p : Prog) (sc : Scenario) : List Ev := runProg p.chain sc p.body
+
+def conforms (p : Prog) (sc : Scenario) : Bool := p.nextOk && conformsTrace sc (p.run sc)
 
 /-- top-level statements that neither defer the exit nor call the handler -/
 def plainStmt : Stmt → Bool
@@ -161,7 +253,8 @@ def bit (b : Bool) : String := if b then "1" else "0"
 mutual
 def Stmt.text : Stmt → String
   | .entry => "entry" | .ifBlocked th => "ifBlocked [ " ++ textList th ++ "]"
-  | .fallback => "fallback" | .ret => "ret" | .deferExit => "deferExit" | .exitNow => "exitNow"
+  | .reject alts => "reject:" ++ "|".intercalate (alts.map fun a => "+".intercalate a)
+  | .ret => "ret" | .deferExit => "deferExit" | .exitNow => "exitNow"
   | .useEntry => "useEntry" | .callNext eb tr => "callNext:" ++ bit eb ++ ":" ++ bit tr
   | .unknown => "unknown"
 def textList : List Stmt → String
@@ -183,12 +276,15 @@ def parseStmts : Nat → List String → Option (List Stmt × List String)
       | none => none
   | n + 1, t :: rest =>
       let one : Option Stmt := match t with
-        | "entry" => some .entry | "fallback" => some .fallback | "ret" => some .ret
+        | "entry" => some .entry | "ret" => some .ret
         | "deferExit" => some .deferExit | "exitNow" => some .exitNow | "useEntry" => some .useEntry
         | "unknown" => some .unknown
         | "callNext:0:0" => some (.callNext false false) | "callNext:0:1" => some (.callNext false true)
         | "callNext:1:0" => some (.callNext true false) | "callNext:1:1" => some (.callNext true true)
-        | _ => none
+        | _ =>
+          if t.startsWith "reject:" then
+            some (.reject (((t.drop 7).toString.splitOn "|").map fun a => a.splitOn "+"))
+          else none
       match one with
       | some s =>
           match parseStmts n rest with
